@@ -124,7 +124,7 @@ def run_case(args):
     names = NAMES[:npart]
     tmp = tempfile.mkdtemp(prefix="c14.", dir=tlc.scratch())
     ev = {"e": "Load", "files": status, "nt": nt, "hadPrev": prev != "none", "reqBasis": req_basis, "storedBasis": stored_basis,
-          "exact": False, "sameBasisSameSize": False, "srcSize": 0, "dOp": -1, "dInterp": -1, "dPairLocal": -1, "basisOut": "", "sizeOut": -1}
+          "exact": False, "sameBasisSameSize": False, "srcSize": 0, "dOp": -1, "dInterp": -1, "dPairLocal": -1, "basisOut": "", "sizeOut": -1, "srcUsed": False, "srcUntouched": True, "dSrcAction": 16}
     real, Counting = count_opens()
     try:
         parts = particles(WG, npart)
@@ -211,6 +211,17 @@ def run_case(args):
                         for y, j in enumerate(sub):
                             worst_pl = min(worst_pl, quant.reldigits(C[i, :, :, j, :, :], C3[x, :, :, y, :, :]))
             ev["dPairLocal"] = worst_pl
+            # call history: the installed array used as the SOURCE of a further interpolation must come out of it unchanged
+            # (numbers, basis flag, and therefore its action); the result must be a different object
+            if nt >= 5:
+                before = np.array(cur.polynomialData.coefficients, copy=True)
+                basis_before = cur.getBasisType()
+                small = CA.CollisionArray.interpolateCollisionArray(cur, WG.Grid(M, nt - 2, 1.0, 1.0))
+                ev["srcUsed"] = True
+                ev["srcUntouched"] = bool(small is not cur and cur.getBasisType() == basis_before and np.array_equal(before, np.asarray(cur.polynomialData.coefficients))
+                                          and small.polynomialData is not cur.polynomialData)
+                fch = rng.normal(size=(npart, nt - 1, nt - 1))
+                ev["dSrcAction"] = quant.reldigits(apply_op(np.asarray(cur.polynomialData.coefficients), coeffs_in(basis_before, fch, nt)), apply_op(before, coeffs_in(basis_before, fch, nt)))
     except Exception as ex:  # harness-side failure is reported as an outcome TLC will reject
         ev.setdefault("out", "Harness:" + type(ex).__name__)
         ev.setdefault("opens", -1)
